@@ -2,6 +2,7 @@ package hashgraph
 
 import (
 	"bytes"
+	"fmt"
 	"sort"
 
 	"github.com/mosaicnetworks/babble/src/crypto"
@@ -17,6 +18,50 @@ type Frame struct {
 	Events    []*FrameEvent         // Events with RoundReceived = Round
 	PeerSets  map[int][]*peers.Peer // full peer-set history ([round] => Peers)
 	Timestamp int64                 // unix timestamp (median of round-received famous witnesses)
+}
+
+// Validate checks the structural assumptions that the code makes about a Frame
+// and that are not guaranteed for a Frame decoded from the network: no null
+// Peer, Root or FrameEvent, and every FrameEvent has a Core with two parents.
+func (f *Frame) Validate() error {
+	for _, p := range f.Peers {
+		if p == nil {
+			return fmt.Errorf("Frame.Peers contains a null Peer")
+		}
+	}
+	for r, ps := range f.PeerSets {
+		for _, p := range ps {
+			if p == nil {
+				return fmt.Errorf("Frame.PeerSets[%d] contains a null Peer", r)
+			}
+		}
+	}
+	for k, r := range f.Roots {
+		if r == nil {
+			return fmt.Errorf("Frame.Roots[%q] is null", k)
+		}
+		for _, fe := range r.Events {
+			if err := validateFrameEvent(fe); err != nil {
+				return fmt.Errorf("Frame.Roots[%q]: %v", k, err)
+			}
+		}
+	}
+	for _, fe := range f.Events {
+		if err := validateFrameEvent(fe); err != nil {
+			return fmt.Errorf("Frame.Events: %v", err)
+		}
+	}
+	return nil
+}
+
+func validateFrameEvent(fe *FrameEvent) error {
+	if fe == nil || fe.Core == nil {
+		return fmt.Errorf("null FrameEvent or FrameEvent without Core")
+	}
+	if len(fe.Core.Body.Parents) != 2 {
+		return fmt.Errorf("FrameEvent with %d parents", len(fe.Core.Body.Parents))
+	}
+	return nil
 }
 
 // SortedFrameEvents returns all the events in the Frame, including event is
